@@ -23,6 +23,17 @@ Qed.
 Lemma classification_is_silent : classify_write_sites = [].
 Proof. reflexivity. Qed.
 
+(* no override of the socketserver accept-loop hooks in server.py sends anything to a client *)
+Lemma accept_loop_is_silent : accept_loop_write_sites = [].
+Proof. reflexivity. Qed.
+(* the reading of the request line is guarded (a client that goes silent or away
+   before a request line arrives does not leave the handler) *)
+Lemma request_read_is_guarded : request_read_guarded = true.
+Proof. reflexivity. Qed.
+
+Lemma outside_handler_silent : accept_loop_write_sites = [] /\ request_read_guarded = true.
+Proof. exact (conj accept_loop_is_silent request_read_is_guarded). Qed.
+
 Lemma contained_now p fails c pre acts : silent pre = true ->
   fst (connection fails c server_spec (handle_spec p) pre acts) = Contained.
 Proof. apply connection_contained. exact current_server_ok. Qed.
